@@ -59,6 +59,8 @@ fn main() {
             "C30" => vf_harness::gadgets::run_c30(&ctx),
             "C31" => vf_harness::gadgets::run_c31(&ctx),
             "C19" | "C20" | "C21" | "C22" => vf_harness::poolcheck::run(&prop, &ctx),
+            "C14" => vf_harness::provers::run_c14(&ctx),
+            "C15" => vf_harness::provers::run_c15(&ctx),
             "C28" => vf_harness::policy::run_c28(&ctx),
             "C29" => vf_harness::policy::run_c29(&ctx),
             _ => {
